@@ -334,7 +334,10 @@ class RF24:
             self.flush_rx()
         up_cnt = 0
         assert isinstance(buf, (bytes, bytearray))
-        self.write(buf, ask_no_ack)
+        if not self.write(buf, ask_no_ack):
+            # TX FIFO is full (the cached status was not up to date)
+            self.flush_tx()
+            self.write(buf, ask_no_ack)
         while not self._in[0] & 0x30:
             up_cnt += self.update()
         result = bool(self._in[0] & 0x20)  # type: ignore[assignment]
